@@ -23,6 +23,7 @@ import (
 	"bytes"
 	"encoding/json"
 	"io"
+	"reflect"
 	"runtime"
 	"sort"
 	"strconv"
@@ -65,6 +66,9 @@ func c12Unwrap(id comm.SubscriptionID) string {
 
 // c12Pending reports whether a goroutine started inside the repository's comm/p2p package is still alive
 // (the fan-out goroutines of ProcessMessagesFromStream). Deterministic: it inspects goroutine stacks, not clocks.
+// the import path of the package under test, taken from the type itself (no literal path, no function name)
+var c12PkgPrefix = reflect.TypeOf(p2p.Libp2pCommunication{}).PkgPath() + "."
+
 func c12Pending() bool {
 	buf := make([]byte, 1<<16)
 	for {
@@ -75,7 +79,7 @@ func c12Pending() bool {
 		}
 		buf = make([]byte, 2*len(buf))
 	}
-	return bytes.Contains(buf, []byte("sygma-relayer/comm/p2p."))
+	return bytes.Contains(buf, []byte(c12PkgPrefix))
 }
 
 // respell builds a subscription id that differs textually from the one issued for (sess, typ, suffix).
